@@ -122,8 +122,9 @@ def check(F, run, tier):
     bytes_t = ("call", IH + "::CalcPixelByteWidth", None, (P(wp, 4), P(wp, 2)))
     run.add(ic.unsigned_subtractions(F, S, wp, lemmas=((pitch_t, bytes_t),)))
     run.add(ic.invert_scan_lines(F, S))
-    for q, np_ in ((B + "::WriteHeaders", 5), (B + "::CreateIndexed", 3)):
-        o, k = r_narrow(F, S, F.fn(q, nparams=np_), explicit_only=True)
+    wh_, _ = F.fn_or_host(B + "::WriteHeaders", 5, B + "::WriteIndexed", 1, host_pred=lambda f: "Writer &)" in f.key)
+    for fn_ in (wh_, F.fn(B + "::CreateIndexed", nparams=3)):
+        o, k = r_narrow(F, S, fn_, explicit_only=True)
         run.add(o)
     run.add(factories(F, S))
     run.floor("obligations", len(run.obligations), 45)
